@@ -41,6 +41,8 @@ pub struct TopicModel {
     pub lost_track: bool,
     /// AtLeastOnce after a restart: cursor may have fallen back; adopt on first read
     pub cursor_floating: bool,
+    /// while floating: every resume point that is still consistent with what was observed
+    pub float_candidates: Vec<usize>,
     pub count_unknown: bool,
     pub clean: Option<bool>,
     /// after a failed append the marker may be either value (the statement speaks of appends that return)
@@ -249,6 +251,7 @@ impl<'a> SeqModel<'a> {
                         for t in d.topics.values_mut() {
                             if t.cursor > 0 {
                                 t.cursor_floating = true;
+                                t.float_candidates = (0..=t.cursor).collect();
                                 t.count_unknown = true;
                             }
                         }
@@ -315,12 +318,16 @@ impl<'a> SeqModel<'a> {
                 }
                 let mut cursor = t.cursor;
                 if t.cursor_floating {
-                    // AtLeastOnce after a restart: adopt the resume point the engine chose if it is
-                    // not beyond the consumed prefix and the whole result continues the log from there
-                    if let Some(j) = adopt_point(&t.log, cursor, &res.entries, true) {
-                        cursor = j;
-                    }
+                    // AtLeastOnce after a restart: any resume point not beyond the consumed prefix is
+                    // acceptable if the whole result continues the log from there to its end
+                    let got = &res.entries;
+                    let ok = t.float_candidates.iter().copied().filter(|j| *j + got.len() == t.log.len() && got.iter().zip(t.log[*j..].iter()).all(|(g, e)| g.0 == e.0 && g.1 == e.1)).max();
+                    cursor = match ok {
+                        Some(j) => j,
+                        None => t.float_candidates.iter().copied().max().unwrap_or(cursor),
+                    };
                     t.cursor_floating = false;
+                    t.float_candidates.clear();
                 }
                 let expect: Vec<Sig> = t.log[cursor.min(t.log.len())..].to_vec();
                 let log = t.log.clone();
@@ -595,14 +602,42 @@ impl<'a> SeqModel<'a> {
         // ---- stateful reads ----
         let mut cursor = t.cursor;
         if t.cursor_floating {
-            if !got.is_empty() {
-                if let Some(j) = adopt_point(&t.log, cursor, got, false) {
-                    cursor = j;
-                    t.cursor = j;
+            // AtLeastOnce after a restart: keep every resume point consistent with the observations
+            // (identical entries make a single observation ambiguous)
+            let cands: Vec<usize> = t
+                .float_candidates
+                .iter()
+                .copied()
+                .filter(|j| {
+                    if got.is_empty() {
+                        *j >= t.log.len() || !checkpoint
+                    } else {
+                        *j + got.len() <= t.log.len() && got.iter().zip(t.log[*j..].iter()).all(|(g, e)| g.0 == e.0 && g.1 == e.1)
+                    }
+                })
+                .collect();
+            if cands.is_empty() {
+                // no admissible resume point explains the result: judge it from the latest one
+                cursor = t.float_candidates.iter().copied().max().unwrap_or(cursor);
+                t.cursor = cursor;
+                t.cursor_floating = false;
+                t.float_candidates.clear();
+            } else {
+                let next: Vec<usize> = if checkpoint { cands.iter().map(|j| j + got.len()).collect() } else { cands };
+                if checkpoint {
+                    t.returned += got.len() as u64;
                 }
-                t.cursor_floating = false;
-            } else if checkpoint {
-                t.cursor_floating = false;
+                t.cursor = next.iter().copied().max().unwrap_or(cursor);
+                if next.len() == 1 {
+                    t.cursor_floating = false;
+                    t.float_candidates.clear();
+                } else {
+                    t.float_candidates = next;
+                }
+                for f in out {
+                    self.push(f);
+                }
+                return;
             }
         }
         let unread = t.log.len().saturating_sub(cursor);
